@@ -14,7 +14,7 @@ def apply_patch(tree, patch):
     if r.returncode == 0:
         sh(['git', '-C', tree, 'reset', '-q'])
         return True, '3way'
-    sh(['git', '-C', tree, 'checkout', '--', '.'])
+    sh(['git', '-C', tree, 'reset', '-q', '--hard', 'HEAD'])
     return False, r.stderr[-300:]
 
 def verify(d):
